@@ -679,8 +679,13 @@ func init() {
 							return true, "loop variable bounded by the sequence length"
 						}
 					case *ast.RangeStmt:
+						if l.Key != nil && fi.varOf(l.Key) == v && lenOf(&ast.CallExpr{Fun: ast.NewIdent("len"), Args: []ast.Expr{l.X}}) {
+							return true, "index of a range over this very sequence"
+						}
 						if l.Key != nil && fi.varOf(l.Key) == v {
-							return true, "range index"
+							if n := fi.madeWithLen(l.X); n != nil && lenOf(n) {
+								return true, "index of a range over a list made as long as this sequence"
+							}
 						}
 					}
 				}
@@ -706,8 +711,29 @@ func init() {
 							if loop, _ := fi.enclosingLoop(x).(*ast.RangeStmt); loop != nil {
 								_ = loop
 							}
-							// index found by scanning a parallel list whose length was tested equal
+							// index of a range over the list this one was made as long as: S = make(T, len(X)); for i := range X { S[i] … }
 							if v := fi.varOf(x.Index); v != nil {
+								for _, d := range fi.defs[v] {
+									rs, isR := d.node.(*ast.RangeStmt)
+									if !isR || d.kind != "range-key" || !fi.within(x, rs.Body) {
+										continue
+									}
+									fi.inspect(fi.Decl.Body, func(m ast.Node) bool {
+										as, isAs := m.(*ast.AssignStmt)
+										if !isAs || len(as.Lhs) != 1 || len(as.Rhs) != 1 || !fi.sameExpr(as.Lhs[0], x.X) {
+											return true
+										}
+										if mk := fi.isBuiltin(as.Rhs[0], "make"); mk != nil && len(mk.Args) >= 2 {
+											if l := fi.isBuiltin(fi.deref(mk.Args[1]), "len"); l != nil && fi.sameExpr(l.Args[0], rs.X) && fi.precedes(as, rs) {
+												ok, why = true, "index of a range over the list this one was made as long as"
+											}
+										}
+										return true
+									})
+								}
+							}
+							// index found by scanning a parallel list whose length was tested equal
+							if v := fi.varOf(x.Index); v != nil && !ok {
 								for _, g := range fi.Guards(x) {
 									if be, isB := ast.Unparen(g.Expr).(*ast.BinaryExpr); isB && ((g.Neg && be.Op == token.NEQ) || (!g.Neg && be.Op == token.EQL)) && lenOf(be.X) {
 										if l2 := fi.isBuiltin(be.Y, "len"); l2 != nil {
